@@ -100,32 +100,57 @@ Proof. intros. cbn [exec]. destruct (find_cont w id); [destruct (ls_logs_err (sc
 Lemma exec_attach : forall id w, fst (exec w (EAttach id)) = w.
 Proof. intros. cbn [exec]. destruct (find_cont w id); [destruct (ls_attach_err (script w))|]; reflexivity. Qed.
 
-Lemma send_lines_core : forall id n, core_neutral (send_lines id n).
+Lemma send_exact : forall m w k, crunk (send m) w k = (set_out w (m :: out w), k, tt).
+Proof. intros. unfold send, ign, doc, call1, crunk. cbn [bind runk exec is_faultable]. reflexivity. Qed.
+
+Lemma send_lines_exact : forall id n w k,
+  crunk (send_lines id n) w k = (set_out w (repeat (MLambdaOut id) n ++ out w), k, tt).
 Proof.
-  induction n as [|n IH]; cbn [send_lines].
-  - apply core_neutral_ret.
-  - apply core_neutral_bind; [unfold send; apply core_neutral_call, core_call_send|intros _; exact IH].
+  induction n as [|n IH]; intros w k; cbn [send_lines].
+  - unfold skip, crunk. cbn [runk repeat app]. destruct w; reflexivity.
+  - rewrite crunk_bind, send_exact. rewrite IH. cbn [out set_out].
+    replace (repeat (MLambdaOut id) n ++ MLambdaOut id :: out w) with (repeat (MLambdaOut id) (S n) ++ out w).
+    + destruct w; reflexivity.
+    + change (MLambdaOut id :: out w) with ([MLambdaOut id] ++ out w). rewrite app_assoc.
+      change [MLambdaOut id] with (repeat (MLambdaOut id) 1). rewrite <- repeat_app. rewrite Nat.add_1_r. reflexivity.
 Qed.
 
-Lemma wait_step : forall id w k, exists w1 k' r, crunk (call1 (EWait id)) w k = (w1, k', r) /\ body_post id w w1.
+(* what the body does to the channel and the WAL, and what its last message is: the exit code of the process
+   exactly when the wait succeeded (then the container has stopped), an error message otherwise *)
+Record body_io (id : wid) (w w1 : world) (final : msg) : Prop := {
+  bi_walq : walq w1 = walq w; bi_seq : wal_seq w1 = wal_seq w;
+  bi_out : exists n, out w1 = repeat (MLambdaOut id) n ++ out w;
+  bi_final : (final = MLambdaErr (Some id) /\ conts w1 = conts w) \/
+             (final = MLambdaExit id (ls_code (script w)) /\ conts w1 = upd_cont id CStopped (conts w));
+}.
+
+Lemma body_io_err : forall id w, body_io id w w (MLambdaErr (Some id)).
+Proof. intros. constructor; auto. exists 0%nat. reflexivity. Qed.
+
+Lemma wait_step : forall id w k, exists w1 k' r, crunk (call1 (EWait id)) w k = (w1, k', r) /\ body_post id w w1 /\
+  walq w1 = walq w /\ wal_seq w1 = wal_seq w /\ out w1 = out w /\
+  match r with
+  | RCode c => c = ls_code (script w) /\ conts w1 = upd_cont id CStopped (conts w)
+  | _ => conts w1 = conts w
+  end.
 Proof.
   intros id w k. unfold call1, crunk. destruct k as [[|k]|]; cbn [runk].
-  - do 3 eexists. split; [reflexivity|apply body_post_refl].
+  - do 3 eexists. split; [reflexivity|]. split; [apply body_post_refl|]. cbn [fail_reply]. auto.
   - cbn [exec]. destruct (find_cont w id); [destruct (ls_wait_err (script w))|];
       do 3 eexists; (split; [reflexivity|]);
-      first [apply body_post_refl | (constructor; auto; right; reflexivity)].
+      (split; [first [apply body_post_refl | (constructor; auto; right; reflexivity)]|]); cbn; auto.
   - cbn [exec]. destruct (find_cont w id); [destruct (ls_wait_err (script w))|];
       do 3 eexists; (split; [reflexivity|]);
-      first [apply body_post_refl | (constructor; auto; right; reflexivity)].
+      (split; [first [apply body_post_refl | (constructor; auto; right; reflexivity)]|]); cbn; auto.
 Qed.
 
 Lemma lambda_body_spec : forall stdin lines id w k,
-  exists w1 k1 final, crunk (lambda_body stdin lines id) w k = (w1, k1, final) /\ body_post id w w1.
+  exists w1 k1 final, crunk (lambda_body stdin lines id) w k = (w1, k1, final) /\ body_post id w w1 /\ body_io id w w1 final.
 Proof.
   intros stdin lines id w k. unfold lambda_body. rewrite crunk_bind.
   destruct (neutral_call (SGetWorkload id) (exec_getwl id) w k) as [k1 [r1 H1]]. rewrite H1.
-  assert (Hret : forall m kk, exists w1 k1 final, crunk (Ret m : cprog msg) w kk = (w1, k1, final) /\ body_post id w w1).
-  { intros. unfold crunk. cbn [runk]. do 3 eexists. split; [reflexivity|apply body_post_refl]. }
+  assert (Hret : forall kk, exists w1 k1 final, crunk (Ret (MLambdaErr (Some id)) : cprog msg) w kk = (w1, k1, final) /\ body_post id w w1 /\ body_io id w w1 final).
+  { intros. unfold crunk. cbn [runk]. do 3 eexists. split; [reflexivity|]. split; [apply body_post_refl|apply body_io_err]. }
   destruct r1; try apply Hret.
   rewrite crunk_bind. destruct (neutral_doc (ELogs id) (exec_logs id) w k1) as [k2 [e2 H2]]. rewrite H2.
   destruct e2; [apply Hret|].
@@ -136,11 +161,19 @@ Proof.
             match c with
             | RCode code => Ret (MLambdaExit id code)
             | _ => Ret (MLambdaErr (Some id))
-            end) w k3 = (w1, k1', final) /\ body_post id w w1).
-  { intros k3. rewrite crunk_bind.
-    destruct (send_lines_core id (if stdin then (lines + lines)%nat else lines) w k3) as [w4 [k4 [[] [H4 Hc4]]]]. rewrite H4.
-    rewrite crunk_bind. destruct (wait_step id w4 k4) as [w5 [k5 [r5 [H5 Hb5]]]]. rewrite H5.
-    destruct r5; unfold crunk; cbn [runk]; do 3 eexists; (split; [reflexivity|]); eapply body_post_core; eauto. }
+            end) w k3 = (w1, k1', final) /\ body_post id w w1 /\ body_io id w w1 final).
+  { intros k3. rewrite crunk_bind. rewrite send_lines_exact.
+    set (nl := if stdin then (lines + lines)%nat else lines).
+    set (w4 := set_out w (repeat (MLambdaOut id) nl ++ out w)).
+    rewrite crunk_bind. destruct (wait_step id w4 k3) as [w5 [k5 [r5 [H5 [Hb5 [Hq [Hs [Ho Hr]]]]]]]]. rewrite H5.
+    assert (Hbp : body_post id w w5). { destruct Hb5 as [? ? ? ? ? ? Hc]. constructor; auto. }
+    assert (Hio : forall fin, (fin = MLambdaErr (Some id) /\ conts w5 = conts w) \/
+                              (fin = MLambdaExit id (ls_code (script w)) /\ conts w5 = upd_cont id CStopped (conts w)) ->
+                              body_io id w w5 fin).
+    { intros fin Hf. constructor; auto. exists nl. rewrite Ho. reflexivity. }
+    destruct r5; unfold crunk; cbn [runk]; do 3 eexists; (split; [reflexivity|]); (split; [exact Hbp|]); apply Hio;
+      try (left; split; [reflexivity|exact Hr]).
+    right. destruct Hr as [-> Hc]. split; [reflexivity|exact Hc]. }
   destruct stdin.
   - destruct (neutral_doc (EAttach id) (exec_attach id) w k2) as [k3 [e3 H3]]. rewrite H3.
     destruct e3; [apply Hret|apply Htail].
@@ -159,13 +192,15 @@ Record lambda_removed (id : wid) (x : wl) (w w' : world) : Prop := {
   lr_norec : find_wl w' id = None;
   lr_nocont : find_cont w' id = None;
   lr_nodes : nodes w' = nodes w;
-  lr_last : exists final rest, out w' = final :: rest;     (* the last thing that happened is the final message *)
 }.
 
-(* the clean-up, run without a fault, removes the workload (record, container, usage), commits, reports *)
+(* the clean-up, run without a fault, removes the workload (record, container, usage), commits the WAL entry
+   (no entry with the token is left) and sends the last message as the last thing it does *)
 Lemma cleanup_none : forall id tok final w0 w x nd p,
   body_post id w0 w -> find_wl w0 id = Some x -> find_node w0 (w_node x) = Some nd -> find_plug w0 (w_node x) = Some p ->
-  exists w', crunk (lambda_cleanup id tok final) w None = (w', None, tt) /\ lambda_removed id x w0 w'.
+  exists w', crunk (lambda_cleanup id tok final) w None = (w', None, tt) /\ lambda_removed id x w0 w' /\
+    out w' = final :: out w /\
+    walq w' = filter (fun e => negb (Nat.eqb (fst e) tok)) (walq w).
 Proof.
   intros id tok final w0 w x nd p [Hp Hn Hw Hpl Hs Hsc Hc] Hx Hnd Hplug.
   assert (Hid : w_id x = id) by (apply find_wl_id in Hx; tauto).
@@ -173,52 +208,76 @@ Proof.
   rewrite (remove_sync_none id w x nd p); [| unfold find_wl; rewrite Hw; exact Hx | unfold find_node; rewrite Hn; exact Hnd | unfold find_plug; rewrite Hpl; exact Hplug].
   rewrite crunk_ret. rewrite crunk_bind. unfold ign, doc, call1. unfold crunk at 1. cbn [bind runk exec is_faultable].
   unfold send, ign, doc, call1, crunk. cbn [bind runk exec is_faultable].
-  eexists. split; [reflexivity|].
+  eexists. split; [reflexivity|]. split; [|split; reflexivity].
   constructor; cbn [wls plugs nodes conts out set_out set_wal removed_world oth find_wl find_cont]; try rewrite Hid.
   - rewrite Hw. reflexivity.
   - rewrite Hpl. reflexivity.
   - unfold find_wl. cbn [wls set_out set_wal removed_world oth]. rewrite Hid. apply find_del_none.
   - unfold find_cont. cbn [conts set_out set_wal removed_world oth]. rewrite Hid. apply find_del_cont_none.
   - exact Hn.
-  - do 2 eexists. reflexivity.
 Qed.
+
+Lemma filter_token_fresh : forall (q : list (nat * event)) t ev, (forall e, ~ In (t, e) q) ->
+  filter (fun e => negb (Nat.eqb (fst e) t)) (q ++ [(t, ev)]) = q.
+Proof.
+  intros q t ev H. rewrite filter_app. simpl. rewrite Nat.eqb_refl. simpl. rewrite app_nil_r.
+  apply filter_true. intros [t' e'] Hin. simpl. destruct (Nat.eqb t' t) eqn:E; [|reflexivity].
+  apply Nat.eqb_eq in E. subst. exfalso. eapply H; eauto.
+Qed.
+
+(* what the closure has done when it ends, if its clean-up ran undisturbed *)
+Record closure_post (id : wid) (x : wl) (w w' : world) : Prop := {
+  cl_removed : lambda_removed id x w w';                 (* no record, no container, usage given back *)
+  cl_wal : walq w' = walq w;                             (* the closure's WAL entry is committed: the queue is what it was *)
+  (* the channel: forwarded output, then ONE last message, nothing after it; the last message carries the
+     process's exit code exactly when the wait succeeded, an error otherwise *)
+  cl_out : exists n final, out w' = final :: repeat (MLambdaOut id) n ++ out w /\
+             (final = MLambdaErr (Some id) \/ final = MLambdaExit id (ls_code (script w)));
+}.
 
 (* C30, the lambda closure of one created workload, EVERY world, EVERY engine outcome, EVERY fault position:
    [kc] is the fault budget left when the clean-up starts; kc = None (no fault, or the fault fired earlier:
    WAL entry, record lookup, logs, attach, wait) means the clean-up runs undisturbed, and then the workload
-   is gone (record, container, usage) when the last message is sent *)
+   is gone (record, container, usage), the WAL entry is committed and the last message is the last thing sent.
+   [forall e, ~ In (wal_seq w, e) (walq w)]: the token the WAL issues next is not in use (tokens only grow). *)
 Theorem lambda_one_spec : forall stdin lines id r w k x nd p,
   find_wl w id = Some x -> find_node w (w_node x) = Some nd -> find_plug w (w_node x) = Some p ->
+  (forall e, ~ In (wal_seq w, e) (walq w)) ->
   exists w' k' (kc : option nat), crunk (lambda_one stdin lines (MCreateOk id r)) w k = (w', k', tt) /\
     (k = None -> kc = None) /\ (k = Some 0%nat -> kc = None) /\
-    (kc = None -> lambda_removed id x w w').
+    (kc = None -> closure_post id x w w').
 Proof.
-  intros stdin lines id r w k x nd p Hx Hnd Hp.
+  intros stdin lines id r w k x nd p Hx Hnd Hp Hwal.
   assert (Hid : w_id x = id) by (apply find_wl_id in Hx; tauto).
   cbn [lambda_one]. rewrite crunk_bind. unfold call1 at 1. unfold crunk at 1.
   assert (Hmain : forall kb, let w0 := set_wal w (walq w ++ [(wal_seq w, EvLambda id)]) (S (wal_seq w)) in
      exists w' k' (kc : option nat), crunk (final <- lambda_body stdin lines id ;; lambda_cleanup id (wal_seq w) final) w0 kb = (w', k', tt) /\
-       (kb = None -> kc = None) /\ (kc = None -> lambda_removed id x w w')).
+       (kb = None -> kc = None) /\ (kc = None -> closure_post id x w w')).
   { intros kb w0. rewrite crunk_bind.
-    destruct (lambda_body_spec stdin lines id w0 kb) as [w1 [k1 [final [H1 Hb]]]]. rewrite H1.
+    destruct (lambda_body_spec stdin lines id w0 kb) as [w1 [k1 [final [H1 [Hb Hio]]]]]. rewrite H1.
     assert (Hb0 : body_post id w w1).
     { destruct Hb as [? ? ? ? ? ? Hc]. constructor; auto. }
     destruct k1 as [j|].
     - destruct (crunk (lambda_cleanup id (wal_seq w) final) w1 (Some j)) as [[w' k'] []] eqn:Hc.
       exists w', k', (Some j). split; [reflexivity|]. split; [|discriminate].
       intros ->. apply crunk_none_k in H1. discriminate.
-    - destruct (cleanup_none id (wal_seq w) final w w1 x nd p Hb0 Hx Hnd Hp) as [w' [Hc Hr]].
-      rewrite Hc. exists w', None, None. auto. }
+    - destruct (cleanup_none id (wal_seq w) final w w1 x nd p Hb0 Hx Hnd Hp) as [w' [Hc [Hr [Ho Hq]]]].
+      rewrite Hc. exists w', None, None. split; [reflexivity|]. split; [auto|]. intros _.
+      destruct Hio as [Hwq _ [n Hout] Hfin]. constructor.
+      + exact Hr.
+      + rewrite Hq, Hwq. unfold w0. cbn [walq set_wal]. apply filter_token_fresh. exact Hwal.
+      + exists n, final. split; [rewrite Ho, Hout; reflexivity|].
+        destruct Hfin as [[-> _]|[-> _]]; [left; reflexivity|right; reflexivity]. }
   destruct k as [[|k]|]; cbn [runk fail_reply is_faultable].
   - (* the WAL entry cannot be written: the workload is removed all the same *)
     rewrite crunk_bind. unfold ign at 1. rewrite crunk_bind.
     rewrite (remove_sync_none id w x nd p Hx Hnd Hp). rewrite crunk_ret.
     unfold send, ign, doc, call1, crunk. cbn [bind runk exec is_faultable].
     do 3 eexists. split; [reflexivity|]. split; [discriminate|]. split; [intros _; reflexivity|]. intros _.
-    constructor; cbn [wls plugs nodes conts out set_out removed_world oth]; try rewrite Hid; try reflexivity.
+    constructor; [constructor|..]; cbn [wls plugs nodes conts out walq set_out removed_world oth]; try rewrite Hid; try reflexivity.
     + unfold find_wl. cbn [wls set_out removed_world oth]. rewrite Hid. apply find_del_none.
     + unfold find_cont. cbn [conts set_out removed_world oth]. rewrite Hid. apply find_del_cont_none.
-    + do 2 eexists. reflexivity.
+    + exists 0%nat, (MLambdaErr (Some id)). split; [reflexivity|left; reflexivity].
   - cbn [exec]. destruct (Hmain (Some k)) as [w' [k' [kc [H [_ Hr]]]]]. rewrite H.
     exists w', k', kc. split; [reflexivity|]. split; [discriminate|]. split; [discriminate|]. exact Hr.
   - cbn [exec]. destruct (Hmain None) as [w' [k' [kc [H [Hk Hr]]]]]. rewrite H.
@@ -230,3 +289,12 @@ Lemma rpc_forward_drains : forall ms n k, fst (rpc_forward ms n k) = ms.
 Proof. induction ms as [|m rest IH]; intros n k; simpl; [reflexivity|]. rewrite IH. reflexivity. Qed.
 Lemma rpc_forward_healthy : forall ms n, snd (rpc_forward ms n 0) = ms.
 Proof. induction ms as [|m rest IH]; intros n; simpl; [reflexivity|]. rewrite IH. reflexivity. Qed.
+
+(* the whole run-and-wait operation, EVERY world, EVERY fault position: the last thing it does is close the stream *)
+Theorem lambda_closes : forall opi pod r plan stdin lines w k,
+  exists w1 k', crunk (lambda opi pod r plan stdin lines) w k = (set_out w1 (MClose :: out w1), k', tt).
+Proof.
+  intros. unfold lambda. rewrite crunk_bind. destruct (crunk (create opi pod r plan) w k) as [[w0 k0] ms].
+  rewrite crunk_bind. destruct (crunk (for_all (filter is_create_msg ms) (lambda_one stdin lines)) w0 k0) as [[w1 k1] []].
+  rewrite send_exact. exists w1, k1. reflexivity.
+Qed.
